@@ -85,6 +85,10 @@ impl ConstraintSatisfactionSolver {
                 old(self).state.phase@ is RootInfeasible <==> final(self).state.phase@ is RootInfeasible,
     { unimplemented!() }
 
+    // nothing is promised about the level at which a solve ends (a solve can be interrupted at the root: the state is
+    // TimedOut all the same)
+    #[verifier::external_body]
+    pub fn get_decision_level(&self) -> (r: usize) { unimplemented!() }
     #[verifier::external_body]
     pub fn conclude_proof_unsat(&mut self) -> (r: Result<(), ()>) ensures *final(self) == *old(self) { unimplemented!() }
     #[verifier::external_body]
